@@ -43,7 +43,7 @@ class TLCRun:
     .generated/.distinct/.ok/.error/.coverage are set."""
 
     def __init__(self, module, cfg=None, workers=16, env=None, args=(), simulate=None,
-                 timeout=3600, extra_files=None, keep=False, deadlock=False):
+                 timeout=3600, extra_files=None, keep=False, deadlock=False, heap=None):
         self.module = module
         self.cfg = cfg or module
         self.workers = workers
@@ -60,6 +60,8 @@ class TLCRun:
         self.keep = keep
         self.wall = 0.0
         self.messages = []
+        # many single-worker judges run side by side: keep their JVMs small
+        self.heap = heap or ("2g" if workers == 1 else "8g")
 
     def __iter__(self):
         for line in self.raw_lines():
@@ -74,7 +76,8 @@ class TLCRun:
             for name, text in self.extra_files.items():
                 with open(os.path.join(work, name), "w") as f:
                     f.write(text)
-            cmd = ["java", "-XX:+UseParallelGC", "-Xmx8g", "-Xss16m", "-cp", JAR, "tlc2.TLC",
+            cmd = ["java", "-XX:+UseParallelGC", "-XX:ParallelGCThreads=%d" % (2 if self.workers == 1 else 8),
+                   "-Xmx" + self.heap, "-Xss16m", "-cp", JAR, "tlc2.TLC",
                    "-workers", str(self.workers), "-metadir", os.path.join(work, "meta"),
                    "-noGenerateSpecTE", "-config", self.cfg + ".cfg"]
             if self.simulate:
